@@ -60,7 +60,7 @@ def strat_sources(draw, tier="quick"):
     vals = draw(st.lists(st.one_of(st.floats(0.1, 20), st.floats(-20, -0.1)), min_size=n, max_size=n))
     return {"n": n, "kind": kind, "container": draw(st.sampled_from(["indexed", "xy_x", "xy_y", "hist"])), "values": vals,
             "err": draw(st.lists(st.floats(0.01, 3.0), min_size=n, max_size=n)), "rho": draw(st.sampled_from([0.0, 0.3, 0.7, 1.0])),
-            "R": draw(S.corr_matrix(n)), "scalar": draw(st.floats(0.01, 3.0))}
+            "R": draw(S.corr_matrix(n)), "scalar": draw(st.floats(0.01, 3.0)), "reuse_buffers": draw(st.booleans())}
 
 
 def _container(which, vals, n):
@@ -91,9 +91,19 @@ def run_sources(case):
     cA, pre, attr = _container(case["container"], vals, n)
     cB, _, _ = _container(case["container"], vals, n)
     labels = {kind, case["container"]}
+    if case.get("reuse_buffers"):
+        # the arrays handed to side A are the caller's own buffers and are overwritten right after the calls (side B gets private copies)
+        from ..core import scribble
+
+        labels.add("caller_buffers_overwritten")
+        e_A, R_A = e.copy(), R.copy()
+    else:
+        scribble = None
+        e_A, R_A = e, R
+    e_keep, R_keep = e.copy(), R.copy()
     with guard(f"add[{kind}]"):
         if kind == "rel_abs":
-            cA.add_error(*pre, e, correlation=rho, relative=True)
+            cA.add_error(*pre, e_A, correlation=rho, relative=True)
             sig = e * vals  # signed
             Rm = (1 - rho) * np.eye(n) + rho * np.ones((n, n))
             if rho == 0:
@@ -107,16 +117,20 @@ def run_sources(case):
             cA.add_matrix_error(*pre, M, "cov", relative=True)
             cB.add_matrix_error(*pre, M * np.outer(vals, vals), "cov", relative=False)
         elif kind == "cor_cov":
-            cA.add_matrix_error(*pre, R, "cor", err_val=e)
+            cA.add_matrix_error(*pre, R_A, "cor", err_val=e_A)
             cB.add_matrix_error(*pre, np.outer(e, e) * R, "cov")
         elif kind == "rho_matrix":
-            cA.add_error(*pre, e, correlation=rho)
+            cA.add_error(*pre, e_A, correlation=rho)
             Rm = (1 - rho) * np.eye(n) + rho * np.ones((n, n))
             cB.add_matrix_error(*pre, np.outer(e, e) * Rm, "cov")
         else:
             s = float(case["scalar"])
             cA.add_error(*pre, s, correlation=rho)
             cB.add_error(*pre, np.full(n, s), correlation=rho)
+    if scribble is not None:
+        scribble(e_A)
+        scribble(R_A)
+        e, R = e_keep, R_keep
     with guard("cov_mat"):
         VA, VB = getattr(cA, attr), getattr(cB, attr)
     if not _close(VA, VB):
